@@ -38,3 +38,170 @@ package eio
 //@   callsite Marshal
 //@     requires unbox(arg0, *parser.HandshakeResponse).MaxPayload == s.maxBufferSize [C13.announce]
 //@     requires unbox(arg0, *parser.HandshakeResponse).PingInterval == s.pingInterval / 1000000 && unbox(arg0, *parser.HandshakeResponse).PingTimeout == s.pingTimeout / 1000000 [C14.announce]
+
+// ---------------------------------------------------------------------------------------------
+// C17: the session table. view = the map; set inserts only an absent id (atomically, under the store's lock).
+//@ func (*socketStore).set
+//@   requires s.sockets != nil
+//@   modifies mapof(s.sockets)
+//@   ensures ok <==> !old(sid in s.sockets) [C17.store.unique]
+//@   ensures ok ==> (sid in s.sockets) && s.sockets[sid] == socket [C17.store.inserted]
+//@   ensures !ok ==> (sid in s.sockets) && s.sockets[sid] == old(s.sockets[sid]) [C17.store.keeps]
+//@   ensures forall k string :: k != sid ==> (k in s.sockets) == old(k in s.sockets) && s.sockets[k] == old(s.sockets[k]) [C17.store.frame]
+
+//@ func (*socketStore).get
+//@   requires s.sockets != nil
+//@   ensures ok == (sid in s.sockets) && (ok ==> socket == s.sockets[sid]) [C17.store.get]
+
+//@ func (*socketStore).exists
+//@   requires s.sockets != nil
+//@   ensures result == (sid in s.sockets) [C17.store.exists]
+
+//@ func (*socketStore).delete
+//@   requires s.sockets != nil
+//@   modifies mapof(s.sockets)
+//@   ensures !(sid in s.sockets) [C17.store.delete]
+//@   ensures forall k string :: k != sid ==> (k in s.sockets) == old(k in s.sockets) && s.sockets[k] == old(s.sockets[k]) [C17.store.delete.frame]
+
+// Requests that must be refused get the protocol's error and reach nothing that creates or serves a session.
+//@ func (*Server).ServeHTTP
+//@   opt safety off
+//@   ghost closedseen bool = false
+//@   ghost verr bool = false
+//@   ghost ver int = 4
+//@   ghost sidempty bool = true
+//@   ghost getok bool = true
+//@   ghost errs int = 0
+//@   ghost lastcode int = 0 - 1
+//@   ghost h503 int = 0
+//@   ghost hs int = 0
+//@   ghost ups int = 0
+//@   ghost served int = 0
+//@   callsite (*Server).IsClosed
+//@     updateafter closedseen = result
+//@   callsite Atoi
+//@     updateafter verr = result1 != nil
+//@     updateafter ver = result0
+//@   callsite Get
+//@     updateafter sidempty = (arg0 == "sid") ? (result == "") : sidempty
+//@   callsite (*socketStore).get
+//@     updateafter getok = result1
+//@   callsite writeServerError
+//@     update errs = errs + 1
+//@     update lastcode = arg1
+//@   callsite ResponseWriter.WriteHeader
+//@     update h503 = h503 + (arg0 == 503 ? 1 : 0)
+//@   callsite (*Server).handleHandshake skip
+//@     update hs = hs + 1
+//@   callsite (*Server).maybeUpgrade skip
+//@     update ups = ups + 1
+//@   callsite ServerTransport.ServeHTTP
+//@     update served = served + 1
+//@   ensures closedseen ==> h503 == 1 && errs == 0 && hs == 0 && ups == 0 && served == 0 [C17.serve.closed]
+//@   ensures !closedseen && r.ProtoMajor != 3 && (verr || ver != 4) ==> errs == 1 && lastcode == ErrorUnsupportedProtocolVersion && hs == 0 && ups == 0 && served == 0 [C17.serve.version]
+//@   ensures !closedseen && !(r.ProtoMajor != 3 && (verr || ver != 4)) && !sidempty && !getok ==> errs == 1 && lastcode == ErrorUnknownSID && hs == 0 && ups == 0 && served == 0 [C17.serve.sid]
+//@   ensures hs + ups + served + errs + h503 <= 1 [C17.serve.one]
+
+//@ func (*Server).handleHandshake
+//@   opt safety off
+//@   ghost errs int = 0
+//@   ghost lastcode int = 0 - 1
+//@   ghost h403 int = 0
+//@   ghost ns int = 0
+//@   ghost hsok bool = false
+//@   ghost authok bool = true
+//@   callsite writeServerError
+//@     update errs = errs + 1
+//@     update lastcode = arg1
+//@   callsite ResponseWriter.WriteHeader
+//@     update h403 = h403 + (arg0 == 403 ? 1 : 0)
+//@   callsite authenticator
+//@     updateafter authok = result
+//@   callsite (*Server).onWebTransport skip
+//@   callsite ServerTransport.Handshake
+//@     updateafter hsok = result1 == nil
+//@   callsite (*Server).newSocket skip
+//@     requires hsok && authok [C17.hs.order]
+//@     update ns = ns + 1
+//@   ensures old(r.Method) != "GET" && old(r.ProtoMajor) != 3 ==> errs == 1 && lastcode == ErrorBadHandshakeMethod && ns == 0 [C17.hs.method]
+//@   ensures !authok ==> h403 == 1 && ns == 0 [C17.hs.auth]
+//@   ensures errs == 1 ==> ns == 0 [C17.hs.error.nosession]
+//@   ensures ns <= 1 [C17.hs.onesession]
+
+// A duplicate id never replaces a live session: the insert fails, the new socket is closed, nothing is returned.
+//@ func (*Server).newSocket
+//@   opt safety off
+//@   ghost setok bool = true
+//@   ghost sets int = 0
+//@   ghost closes int = 0
+//@   callsite (*socketStore).set
+//@     requires arg0 == sid [C17.newsocket.sid]
+//@     update sets = sets + 1
+//@     updateafter setok = result
+//@   callsite (*serverSocket).close
+//@     update closes = closes + 1
+//@   ensures sets == 1 [C17.newsocket.insert.once]
+//@   ensures !setok ==> result == nil && closes == 1 [C17.newsocket.dup]
+
+// generateSID returns only an id that was absent at its last check, after at most 11 tries.
+//@ func (*Server).generateSID
+//@   opt safety off
+//@   ghost lastexists bool = true
+//@   ghost tries int = 0
+//@   callsite GenerateBase64ID
+//@     update tries = tries + 1
+//@   callsite (*socketStore).exists
+//@     updateafter lastexists = result
+//@   ensures err == nil ==> !lastexists [C17.sid.fresh]
+//@   ensures tries <= 11 [C17.sid.tries]
+//@   loop 0 invariant tries == i && i <= 10
+
+//@ func GenerateBase64ID
+//@   ensures size <= 4 ==> result1 != nil [C17.id.size]
+
+// Close: no new session is admitted before the existing ones are closed (closed first, then closeAll).
+//@ func (*Server).Close
+//@   opt safety off
+//@   ghost did int = 0
+//@   ghost closedall int = 0
+//@   callsite Do
+//@     update did = did + 1
+//@   callsite (*socketStore).closeAll skip
+//@     requires did == 1 [C17.close.order]
+//@     update closedall = closedall + 1
+//@   ensures closedall == 1 [C17.close.all]
+
+// ---------------------------------------------------------------------------------------------
+// C06 (Engine.IO side): the body run once per session end. Whatever the reason: the user's OnClose is called once
+// with that reason, then the session is removed from the table (its id becomes unknown), on every path.
+//@ func (*serverSocket).close$1
+//@   opt safety off
+//@   requires s != nil
+//@   ghost userclosed int = 0
+//@   ghost unregistered int = 0
+//@   ghost tclosed int = 0
+//@   callsite OnClose
+//@     requires arg0 == reason [C06.eio.reason]
+//@     update userclosed = userclosed + 1
+//@   callsite onClose
+//@     requires arg0 == s.id && userclosed == 1 [C06.eio.store.sid]
+//@     update unregistered = unregistered + 1
+//@   callsite ServerTransport.Close
+//@     requires reason != ReasonTransportClose && reason != ReasonTransportError [C06.eio.transport.notwice]
+//@     update tclosed = tclosed + 1
+//@   ensures userclosed == 1 [C06.eio.once]
+//@   ensures unregistered == 1 [C06.eio.store]
+
+// A close reported by a transport ends the session only if that transport is still the socket's current one
+// and the session has not ended already (a superseded transport closing after an upgrade is ignored).
+//@ func (*serverSocket).onTransportClose$1
+//@   opt safety off
+//@   requires s != nil
+//@   ghost tn string = ""
+//@   ghost asked bool = false
+//@   callsite (*serverSocket).TransportName
+//@     updateafter tn = result
+//@     updateafter asked = true
+//@   callsite (*serverSocket).close
+//@     requires asked && tn == name [C07.srv.superseded]
+//@     requires arg0 == (err == nil ? ReasonTransportClose : ReasonTransportError) [C06.eio.transport.reason]
